@@ -822,6 +822,21 @@ def _rule_dispatch(ctx: Ctx, r: BatcherRoles, rule: str) -> None:
               bool(spawn) and not awaited, 'spawned, not awaited: a failing or slow batch cannot stop the dispatcher',
               'the dispatcher awaits the batch (batches are serialised; a failing batch kills the dispatcher)',
               construct=construct_key(r.dispatch.qualname, 'dispatch'))
+    # ... and nobody else runs a batch: a batch awaited inside a caller's own task (a "batch of one" short-cut in __call__) dies
+    # with that caller's cancellation - after the future was registered, before its clean-up - and strands the key
+    others = []
+    for f_ in r.p.all_functions():
+        if f_ is r.dispatch:
+            continue
+        for x in ast.walk(f_.node):
+            if isinstance(x, ast.Call) and self_attr(x.func) == r.process.name and f_.enclosing_class() is r.cls \
+                    and isinstance(parent(x), ast.Await):          # (handed to a spawn by a helper of the dispatcher is the dispatcher's spawn)
+                others.append((f_, x))
+    for f_, x in others[:1]:
+        ctx.violation(rule, f'{f_.qualname} runs {norm(x)[:60]} itself', f'{FILE}:{x.lineno}',
+                      'a batch is run outside the dispatcher\'s fire-and-forget task: it shares the fate (cancellation, timeout) of whoever awaits it, '
+                      'and the bookkeeping that follows the await is skipped when that caller is cancelled',
+                      construct=construct_key(f_.qualname, 'batch run outside the dispatcher'))
     # ... nor supervises it: a task group (or `gather` / `wait` over the spawned tasks) ties the dispatcher's life to every
     # batch - the first child that raises cancels its siblings and ends the group, i.e. the dispatcher
     groups = [n for n in gd.nodes if n.kind in ('with_enter', 'call') and any(
